@@ -253,6 +253,29 @@ func bindGating(s *Summary) {
 		}
 	}
 	binding.ResetValidator()
+	// validation depends on the TYPE bound into, not on which types were bound before: rule-less types first, then types
+	// with the same (or no) name that do carry rules
+	for round := 0; round < 2; round++ {
+		for _, tc := range []struct {
+			name    string
+			target  any
+			mustErr bool
+		}{{"local type payload without rules", bindLocalPlain(), false}, {"local type payload with a required field", bindLocalRequired(), true},
+			{"anonymous struct without rules", &struct {
+				Name string `json:"name" form:"name"`
+			}{}, false}, {"anonymous struct with a required field", &struct {
+				Name string `json:"name" form:"name" validate:"required"`
+			}{}, true}} {
+			for _, req := range []*http.Request{mkReq("POST", "/b", "{}", "application/json"), mkReq("GET", "/b", "", "")} {
+				err, pan := safeBind(func() error { return binding.Auto(req, tc.target) })
+				s.Compared++
+				if pan != nil || (err == nil) == tc.mustErr {
+					s.mismatch(map[string]any{"kind": "bind", "aspect": "validation", "what": fmt.Sprintf(
+						"%s request without the field bound into %s (round %d): err=%v panic=%v, an error is expected: %v", req.Method, tc.name, round+1, err, pan, tc.mustErr)}, nil)
+				}
+			}
+		}
+	}
 	v := bindT{Age: 7, Name: "n", Ok: true, Tags: []string{"t"}}
 	for _, media := range []string{"application/json", "text/xml", "application/x-www-form-urlencoded"} {
 		body, ctype := bodyFor(media, v)
@@ -266,6 +289,21 @@ func bindGating(s *Summary) {
 				"%s body of unknown length (ContentLength -1): bound %+v err=%v panic=%v", media, got, err, pan)}, nil)
 		}
 	}
+}
+
+// two function-local types with the same name (and package path): one without validation rules, one with
+func bindLocalPlain() any {
+	type payload struct {
+		Name string `json:"name" form:"name"`
+	}
+	return &payload{}
+}
+
+func bindLocalRequired() any {
+	type payload struct {
+		Name string `json:"name" form:"name" validate:"required"`
+	}
+	return &payload{}
 }
 
 // malformed input yields an error and never a panic
